@@ -41,6 +41,14 @@ def run(ctx):
                 ctx.sample(json.loads(l))
     if not ctx.violations:
         L.selftest(ctx, binp, scen, lines)
+    # R->V: seeded random scenarios with deliberately invalid transactions mixed in (different seeds than C06)
+    ctx.seed += 500
+    hist, events, st2 = L.record_validate(ctx, binp, 6 if quick else 100, 12 if quick else 16, 4 if quick else 8)
+    ctx.seed -= 500
+    ctx.log("R->V: %d random histories (%d events) validated by TraceLedger" % (hist, events))
+    replayed += hist
+    states += st2
+    ctx.cov["recorded_random_histories"] = hist
     ctx.level = "model_checking"
     ctx.cov.update({"states": states, "transitions": transitions, "traces_validated_against_impl": replayed,
                     "exhaustive": True, "families": ["Rules"], "depth": depth,
